@@ -355,6 +355,34 @@ def diag_step_case(d=2):
   return fn
 
 
+def init_layout_case():
+  """NOT solver-decided (memory layout is C-level): an init array in Fortran order or given as a transposed view leads to the same learned
+  matrix as its C-contiguous copy, within the similarity budget, and is left untouched (sampled)"""
+  def fn(ctx):
+    from metric_learn import MMC
+    rs = np.random.RandomState(2)
+    for trial in range(3):
+      d = 3
+      X = rs.randn(30, d)
+      idx = np.array([rs.choice(30, 2, replace=False) for _ in range(20)])
+      P, y = X[idx], np.array([1, -1] * 10)
+      B = rs.randn(d, d)
+      A0 = B @ B.T + np.eye(d)
+      with warnings.catch_warnings():
+        warnings.simplefilter('ignore')
+        ref = MMC(init=A0.copy(), max_iter=8).fit(P, y).get_mahalanobis_matrix()
+        diffs = P[y == 1][:, 0] - P[y == 1][:, 1]
+        t = float(np.sum((diffs @ A0) * diffs)) / 100.0
+        for nm, Av in (('fortran', np.asfortranarray(A0)), ('transposed_view', np.ascontiguousarray(A0.T).T)):
+          keep = np.array(Av, copy=True)
+          M = MMC(init=Av, max_iter=8).fit(P, y).get_mahalanobis_matrix()
+          cost = float(np.sum((diffs @ M) * diffs))
+          ctx.require('init_array_layout_%s_same_model' % nm, ctx.cond(np.allclose(M, ref, rtol=1e-9, atol=1e-12)))
+          ctx.require('init_array_layout_%s_within_budget' % nm, ctx.cond(cost <= 1.01 * t * (1 + 1e-9)))
+          ctx.require('init_array_layout_%s_untouched' % nm, ctx.cond(np.array_equal(Av, keep)))
+  return fn
+
+
 def cases(tier, seed):
   Q, T = ('quick', 'thorough'), ('thorough',)
   out = []
@@ -369,6 +397,9 @@ def cases(tier, seed):
   # no verdict within 15 min; with the exact decomposition of a syntactically diagonal matrix (stubs._eigh2 fast path) the exploration stalls
   # in the nlsat feasibility query of the division norm(alpha*M) / norm(A_old) (> 15 min) -- not registered)
   out.append(case('init_dispatch', init_dispatch_case(), FUNCS, 'init in {identity, covariance, random, array} x diagonal in {False, True}', cost=1))
+  out.append(case('init_array_layout_sampled', init_layout_case(), FUNCS,
+                  '3 data sets in R^3, SPD init array in Fortran order / as transposed view vs its C-contiguous copy, max_iter=8 (concrete, sampled; not solver-decided)',
+                  concrete_only=True, validate=1, cost=2))
   out.append(case('cycle_d1_proj2', cycle_case(1, 2, True), FUNCS, 'd=1, max_proj=2', tiers=T, cost=10, validate=0))
   out.append(case('grad_projection_d1', grad_projection_case(1), FUNCS, 'arbitrary 1x1 gradients', tiers=T, cost=1))
   out.append(case('grad_projection_d2', grad_projection_case(2), FUNCS, 'arbitrary non-parallel 2x2 gradients', cost=10, proof_timeout_ms=60000))
